@@ -36,6 +36,8 @@ def run(ctx, db, tier):
     ready_means_resolved(ctx, db)
     from . import C01
     C01.dtor_and_assign(ctx, db, 'C02.abandoned-promise-releases')
+    # a payload stored without the resolution that follows it in every resolver leaves the waiters suspended for ever
+    C01.receivers(ctx, db, 'C02.no-store-without-release')
     atomic.check_roles(ctx, db, 'C02.observes-complete-result', only_functions=RESULT_VISIBILITY_FUNCTIONS, floor=8)
     shared.final_awaiter(ctx, db, 'C02.final-awaiter')
     shared.set_then_resolve_min(ctx, db, 'C02.not-before-result')
@@ -116,6 +118,17 @@ def resolve_one_rmw(ctx, db, rid='C02.resolve-one-rmw'):
                    desc='chain not detached by a single exchange')
             if ops:
                 ctx.ob(rid, f, ops[0]['loc'], flows_only_into(f, ops[0], 'cocls::awaiter::resume_chain_lk'), 'the detached chain is handed to resume_chain_lk and nothing else', desc='detached chain not handed to the walker')
+    # future::resolve hands the slot to resume_chain_set_ready on every path and does nothing else with it (no "nobody waits" fast path:
+    # a waiter whose CAS lands between a load and a store of the slot is accepted and then overwritten)
+    for f, trs in traces_of(db, 'cocls::future::resolve', per_instance=False):
+        trs = [t for t in trs if live(t)]
+        bad = None
+        for tr in trs:
+            direct = [it for it in tr if it.k == 'call' and atomic.is_atomic_call(it) and norm(it.get('field')) == SLOT and it.get('fname') == f['nname']]
+            via = [it for it in tr if it.k == 'call' and norm(it.get('callee')) == 'cocls::awaiter::resume_chain_set_ready' and any(norm(a.get('field') or '') == SLOT for a in it.get('args', []))]
+            if direct or len(via) != 1:
+                bad = bad or tr
+        ctx.ob(rid, f, f['key'], bad is None and bool(trs), 'future::resolve turns the slot to ready only through resume_chain_set_ready, once on every path', desc='future::resolve operates on the slot directly', trace=fmt_trace(bad) if bad else None)
     # writers of the future's slot: atomic writes + constructor initialisers
     def pred(f, e):
         if e.k == 'call' and atomic.is_atomic_call(e) and norm(e.get('field')) == SLOT and atomic.opname(e) in ('store', 'exchange', 'operator=', 'compare_exchange_weak', 'compare_exchange_strong'):
